@@ -229,7 +229,7 @@ pub fn run_d(seed: u64, ntraces: usize, only: Option<u64>) {
             else if d == 3 { script.extend([47u64, 46, 23, 46, 3]); }  // steps called with different arguments: (1000, minter) then (0, no minter)
             else if d == 17 { script.extend([27u64, 45, 3, 3, 26]); }     // (17): the second issuance FAILS after the first was recorded: the recorded token stays, a retry is refused
             else { script.extend([3u64, 23, 3, 3]); }
-            if d == 2 { script.extend([81u64, 22, 40, 50, 43, 41, 40, 67, 41, 69]); script.extend([40u64, 51, 67, 53, 69, 41, 79]); script.extend([40u64, 19, 41, 40, 41]); }   // an approval is REPLACED by a second one (the first destination minter is refused, the second accepted);   // ... then: an approval is replaced while its chain is no longer trusted (refused), the chain is trusted again, the replacement is not usable, the original is   // the minter approves a remote deployment, hands the role on, then the stale approval is used                   // step 3, second issuance callback, step 3 again (twice)
+            if d == 2 { script.extend([81u64, 22, 40, 50, 43, 41, 40, 67, 41, 69]); script.extend([40u64, 51, 67, 53, 69, 41, 79]); script.extend([40u64, 83, 19, 84, 41, 40, 41]); }   // an approval is REPLACED by a second one (the first destination minter is refused, the second accepted);   // ... then: an approval is replaced while its chain is no longer trusted (refused), the chain is trusted again, the replacement is not usable, the original is   // the minter approves a remote deployment, hands the role on, then the stale approval is used                   // step 3, second issuance callback, step 3 again (twice)
         }
         if d == 1 || d == 6 || d >= 10 {
             // (1) an inbound link / deploy message for a token id that is already bound; (6) hub-wrapped inbound messages while paused
@@ -695,14 +695,15 @@ pub fn run_d(seed: u64, ntraces: usize, only: Option<u64>) {
                     else { g.its_tx("deployRemote", &deployer, "deployRemoteInterchainTokenWithMinter", vec![salt.clone(), minter.clone(), dchain.clone(), dm.clone()], 1000, &[],
                             json!({"salt": hx(&salt), "minter": hx(&minter), "dchain": hx(&dchain), "dminter": Some(hx(&dm))})); }
                 }
-                19 | 45 => { // a user's direct call into one of the token managers (roles, mint, burn, flow limit); 45: the nominated minter calls deployInterchainToken on the newest manager
+                19 | 45 | 83 | 84 => { // 83 / 84: the nominated minter proposes mintership to users[1]; users[1] accepts it from that minter (after the minter handed the role on: refused) // a user's direct call into one of the token managers (roles, mint, burn, flow limit); 45: the nominated minter calls deployInterchainToken on the newest manager
                     if g.toks.is_empty() { continue; }
                     let ti = if scripted { g.toks.len() - 1 } else { r.below(g.toks.len() as u64) as usize };
                     let (tm, ttok, tminter) = (g.toks[ti].tm.clone(), g.toks[ti].token.clone(), g.toks[ti].minter.clone());
                     let role_holder = if tminter.len() == 32 && tminter != vec![0u8; 32] { VMAddress::new(tminter.clone().try_into().unwrap()) } else { g.operator.clone() };
-                    let caller = if a == 45 { g.users[1].clone() } else if scripted || r.chance(2, 3) { role_holder.clone() } else { anyone.clone() };
+                    let caller = if a == 45 || a == 84 { g.users[1].clone() } else if scripted || r.chance(2, 3) { role_holder.clone() } else { anyone.clone() };
                     let other = r.pick(&g.users).clone(); let mut egld = 0u64;
-                    let k = if a == 45 { 15 } else if scripted { 0 } else { r.below(16) };
+                    let other = if a == 83 { g.users[1].clone() } else if a == 84 { role_holder.clone() } else { other };
+                    let k = if a == 45 { 15 } else if a == 83 { 1 } else if a == 84 { 2 } else if scripted { 0 } else { r.below(16) };
                     let (top, ep, args, esdt): (Value, &str, Vec<Vec<u8>>, Vec<(Vec<u8>, u64, BigUint)>) = match k {
                         0 => (json!({"op": "transferMint", "a": hx(other.as_bytes())}), "transferMintership", vec![other.to_vec()], vec![]),
                         1 => (json!({"op": "proposeMint", "a": hx(other.as_bytes())}), "proposeMintership", vec![other.to_vec()], vec![]),
